@@ -42,6 +42,10 @@ THE SOFTWARE.
 #  include <omp.h>
 #endif
 
+#ifdef AMGCL_VERIF
+namespace amgcl_verif { struct access; }
+#endif
+
 namespace amgcl {
 namespace relaxation {
 
@@ -134,6 +138,9 @@ struct gauss_seidel {
     }
 
     private:
+#ifdef AMGCL_VERIF
+        friend struct ::amgcl_verif::access;
+#endif
         static int num_threads() {
 #ifdef _OPENMP
             return omp_get_max_threads();
